@@ -3,6 +3,7 @@ package harness
 import (
 	"database/sql"
 	"fmt"
+	"os"
 	"sort"
 	"testing"
 
@@ -258,8 +259,8 @@ func TestC19(t *testing.T) {
 			}
 		})
 	})
-	if tier() == "thorough" {
-		// small scope, exhaustively: <= 3 sessions x <= 3 blocks x versions 0..2 (first may be legacy) x <= 1 fork
+	if tier() == "thorough" && (os.Getenv("VERIF_SHARD") == "" || os.Getenv("VERIF_SHARD") == "0") {
+		// small scope, exhaustively (one shard does it; the others only run the random part): <= 3 sessions x <= 3 blocks x versions 0..2 (first may be legacy) x <= 1 fork
 		t.Run("small-scope", func(t *testing.T) {
 			count := 0
 			var rec func(c vlCase, depth int)
